@@ -30,7 +30,7 @@ import itertools
 from typing import Any, Dict, Iterator, List, Optional, Sequence, Tuple
 
 from harness import mm
-from harness.src_expr import inv
+from harness.src_expr import expr_of, inv
 
 P, R, L, O, Pr = mm.Prim, mm.Ref, mm.ListOf, mm.OptionalOf, mm.Prop
 
@@ -254,9 +254,24 @@ def part_exprs() -> Part:
     n1 = "count_with_a_rather_long_name"
     xs = "texts_with_a_rather_long_name"
     long_and = f"len(self.{t1}) >= 1 and len(self.{t1}) <= 3 and len(self.{t2}) >= 1 and len(self.{t2}) <= 3"
+    long_pattern = "^([a-z][a-z0-9]{0,2}|[A-Z][A-Z0-9]{0,2}|[0-9][a-z]{0,2}|_[a-z]{0,2})$"
     fns = [
         mm.PatternFn.simple("matches_short", "^[a-z]*$"),
-        mm.PatternFn.simple("matches_a_text_which_consists_of_lower_case_letters_only", "^([a-z][a-z0-9]{0,2}|[A-Z][A-Z0-9]{0,2}|[0-9][a-z]{0,2}|_[a-z]{0,2})$"),
+        mm.PatternFn.simple("matches_a_text_which_consists_of_lower_case_letters_only", long_pattern),
+        # the pattern expression itself is emitted (not a variable): short / 50 characters and more
+        mm.PatternFn.simple("matches_inline_short", "^[a-z_]{0,3}$", style="inline"),
+        mm.PatternFn.simple("matches_inline_long", long_pattern, style="inline"),
+        # helper variables: several statements before the ``return re.compile``; a long interpolated pattern
+        mm.PatternFn("matches_with_variables", parts=("^(", mm.PVar("lower_case_letter_or_digit"), "{0,3}|", mm.PVar("upper_case_letter"), "{1,3}|_", mm.PVar("lower_case_letter_or_digit"), "{0,2})$"),
+                     variables=[("lower_case_letter_or_digit", ("[a-z0-9]",)), ("upper_case_letter", ("[A-Z]",))], style="inline"),
+        # transpilable functions: assignments and returns of 50 characters and less / more, several arguments
+        mm.TranspilableFn("is_short_enough", [mm.Arg("text", P("str"))], P("bool"), [mm.Return(expr_of("len(text) <= 3"))]),
+        mm.TranspilableFn("is_a_text_of_an_acceptable_length", [mm.Arg("text_to_be_checked_for_its_length", P("str"))], P("bool"), [
+            mm.Assign("length_is_at_least_one", expr_of("len(text_to_be_checked_for_its_length) >= 1 and len(text_to_be_checked_for_its_length) >= 0")),
+            mm.Assign("ok", expr_of("length_is_at_least_one")),
+            mm.Return(expr_of("ok and len(text_to_be_checked_for_its_length) <= 3 and len(text_to_be_checked_for_its_length) <= 99"))]),
+        mm.TranspilableFn("are_lengths_compatible_with_each_other", [mm.Arg("first_text", P("str")), mm.Arg("second_text", P("str")), mm.Arg("slack", P("int"))], P("bool"),
+                          [mm.Return(expr_of("len(first_text) <= len(second_text) + slack"))]),
     ]
     invs = [
         ("short", "len(self.s) <= 3"),
@@ -271,6 +286,21 @@ def part_exprs() -> Part:
         ("short call", "matches_short(self.s)"),
         ("call over fifty", f"matches_a_text_which_consists_of_lower_case_letters_only(self.{t1})"),
         ("call in a long conjunction", f"matches_a_text_which_consists_of_lower_case_letters_only(self.{t1}) and matches_a_text_which_consists_of_lower_case_letters_only(self.{t2})"),
+        ("inline short pattern", "matches_inline_short(self.s)"),
+        ("inline long pattern", f"matches_inline_long(self.{t2})"),
+        ("pattern with variables", f"matches_with_variables(self.{t1})"),
+        ("short transpilable", "is_short_enough(self.s)"),
+        ("long transpilable", f"is_a_text_of_an_acceptable_length(self.{t2})"),
+        ("call with several short arguments", f"are_lengths_compatible_with_each_other(self.s, self.s, 0)"),
+        ("call with several long arguments", f"are_lengths_compatible_with_each_other(self.{t1}, self.{t2}, self.{n1})"),
+        ("call with a multi-line argument", f"are_lengths_compatible_with_each_other(self.{t1}, self.{t2}, len(self.{t1}) + len(self.{t2}) + len(self.s) + self.{n1} - 1)"),
+        # the alternatives that depend on the KIND of the operand rather than on its length
+        ("bare antecedent", "not self.flag or len(self.s) <= 3"),
+        ("bare consequent", "not (len(self.s) > 3) or self.flag"),
+        ("bare negation", "not self.flag or not matches_short(self.s)"),
+        ("short disjunction in a conjunction", "(self.flag or len(self.s) > 1) and len(self.s) <= 4"),
+        ("negation in a conjunction", "not self.flag and len(self.s) <= 4 or self.flag and len(self.s) >= 1"),
+        ("subtraction of a difference", f"self.{n1} - (len(self.s) - 1) >= 0 - (0 - 1)"),
         ("short quantifier", f"all(len(x) <= 3 for x in self.{xs})"),
         ("quantifier with a long condition", f"all(len(text_of_the_long_list) >= 1 and len(text_of_the_long_list) <= 3 and text_of_the_long_list != self.{t1} for text_of_the_long_list in self.{xs})"),
         ("quantifier over a range", f"any(len(self.{xs}[index_into_the_long_list]) >= 1 and self.{xs}[index_into_the_long_list] == self.{t2} for index_into_the_long_list in range(0, len(self.{xs})))"),
@@ -283,7 +313,7 @@ def part_exprs() -> Part:
         ("A token longer than a line " + _LONG_WORD + " and the rest", "len(self.s) != 2"),
         ("Quotes \" and ' and a backslash \\ in " + "a description that is long enough to be wrapped into several lines " * 2, "len(self.s) != 4"),
     ]
-    cls = mm.Class("Data_record", props=[Pr("s", P("str")), Pr(t1, P("str")), Pr(t2, P("str")), Pr(n1, P("int")), Pr(xs, L(P("str")))],
+    cls = mm.Class("Data_record", props=[Pr("flag", P("bool")), Pr("s", P("str")), Pr(t1, P("str")), Pr(t2, P("str")), Pr(n1, P("int")), Pr(xs, L(P("str")))],
                    invariants=[inv(d, s) for d, s in invs], description="Represent a record.")
     cases: List[Tuple[str, Dict[str, Any], Tuple[str, ...]]] = []
     texts = ["", "ab", "abcd", "AB", "a", "_a"]
@@ -291,7 +321,7 @@ def part_exprs() -> Part:
     for a, b in itertools.product(texts, repeat=2):
         for c in (-1, 0, 2, 5):
             k += 1
-            cases.append(("Data_record", {"s": texts[k % 6], t1: a, t2: b, n1: c, xs: [[], [a], [b, a], ["ab", "", b, "abcd"]][k % 4]}, ("Data_record",)))
+            cases.append(("Data_record", {"flag": k % 3 == 0, "s": texts[k % 6], t1: a, t2: b, n1: c, xs: [[], [a], [b, a], ["ab", "", b, "abcd"]][k % 4]}, ("Data_record",)))
     m = mm.MM(classes=[cls], verification_functions=fns, version="V1", xml_namespace="urn:aasv:layout:exprs")
     return Part("layout", "exprs", m, cases, [])
 
